@@ -1179,3 +1179,213 @@ Proof.
       * destruct ((top <=? y) && (y <? top + lines) && (left <=? x) && (x <? left + cols)) eqn:C2; [lia|].
         reflexivity.
 Qed.
+
+(* a scroll that reports failure writes nothing *)
+Lemma scrollrect_fail_silent : forall slrm term_cols r d rt ts,
+  xt_scrollrect slrm term_cols r d rt = (false, ts) -> ts = [].
+Proof.
+  intros slrm term_cols r d rt ts H. unfold xt_scrollrect in H.
+  destruct ((d =? 0) && (rt =? 0)); [discriminate|].
+  destruct (((slrm && (r_lines r =? 1)) || (r_right r =? term_cols)) && (d =? 0)); [discriminate|].
+  destruct (slrm || ((r_left r =? 0) && (r_cols r =? term_cols) && (rt =? 0))).
+  - destruct (((0 <? r_left r) || (r_right r <? term_cols)) && (r_cols r <? 2)); [|discriminate].
+    now inversion H.
+  - now inversion H.
+Qed.
+
+(* ------------------------------------------------------------------ sequences *)
+Lemma colour_eqb_eq : forall a b, colour_eqb a b = true -> a = b.
+Proof.
+  intros [|n|r g b] [|m|r2 g2 b2] H; cbn in H; try discriminate; try reflexivity.
+  - f_equal. lia.
+  - f_equal; lia.
+Qed.
+Lemma attrs_eqb_eq : forall a b, attrs_eqb a b = true -> a = b.
+Proof.
+  intros a b H. unfold attrs_eqb in H.
+  destruct a as [a1 a2 a3 a4 a5 a6 a7 a8 a9 a10 a11], b as [b1 b2 b3 b4 b5 b6 b7 b8 b9 b10 b11].
+  cbn [a_fg a_bg a_bold a_faint a_under a_italic a_reverse a_strike a_font a_blink a_sizepos] in H.
+  repeat (apply andb_true_iff in H; destruct H as [H ?]).
+  repeat match goal with
+         | K : colour_eqb _ _ = true |- _ => apply colour_eqb_eq in K
+         | K : Bool.eqb _ _ = true |- _ => apply eqb_prop in K
+         | K : (_ =? _) = true |- _ => apply Z.eqb_eq in K
+         end.
+  subst. reflexivity.
+Qed.
+
+(* a request that leaves the pen alone keeps the tie between terminal object and screen *)
+Lemma SInv_frame : forall t v v' q ret silent,
+  SInv t v -> vt_ok v -> effect_ok q ret silent v v' ->
+  match q with RChpen _ | RSetpen _ => False | RScroll _ _ _ => ret = true | _ => True end ->
+  SInv t v'.
+Proof.
+  intros t v v' q ret silent (S1 & S2 & S3 & S4 & S5) Hok He Hq.
+  assert (Hparts : frame_okb v v' = true /\ attrs_eqb (v_sgr v') (v_sgr v) = true).
+  { unfold effect_ok in He. destruct q; try contradiction;
+      try (destruct He as (H1 & _ & H3 & _); split; assumption).
+    subst ret. destruct He as (H1 & _ & H3 & _). split; assumption. }
+  destruct Hparts as [Hf Ha]. apply attrs_eqb_eq in Ha.
+  unfold frame_okb in Hf.
+  apply andb_true_iff in Hf as [Hf Hmd]. apply andb_true_iff in Hf as [Hf _].
+  apply andb_true_iff in Hf as [Hl Hc]. apply Z.eqb_eq in Hl. apply Z.eqb_eq in Hc.
+  assert (Hm : md_lrmm (v_md v') = md_lrmm (v_md v)).
+  { unfold modes_eqb in Hmd.
+    repeat (apply andb_true_iff in Hmd; destruct Hmd as [Hmd ?]).
+    match goal with K : Bool.eqb (md_lrmm _) (md_lrmm _) = true |- _ => apply eqb_prop in K; exact K end. }
+  unfold SInv. rewrite Hl, Hc, Hm, Ha. exact (conj S1 (conj S2 (conj S3 (conj S4 S5)))).
+Qed.
+
+(* an in-range pen at 256 colours is its own converted form *)
+Lemma cache_of_256 : forall p a, pen_in_range p -> cache_of 256 p a = p a.
+Proof.
+  intros p a Hp. unfold cache_of. destruct (p a) as [x|] eqn:E; [|reflexivity].
+  cbn [option_map]. f_equal. specialize (Hp a x E). unfold aval_in_range in Hp.
+  destruct x as [b|n|i sec]; try reflexivity.
+  unfold conv_val. destruct (attr_type a); try contradiction.
+  destruct (256 <=? i) eqn:E1; [lia|reflexivity].
+Qed.
+
+Lemma pen_req_ok : forall (is_set : bool) t v p, vt_ok v -> SInv t v -> pen_in_range p ->
+  exists t' ts,
+    drv_req t (if is_set then RSetpen p else RChpen p) = Some (t', true, ts) /\
+    effect_ok (if is_set then RSetpen p else RChpen p) true (match ts with [] => true | _ => false end) v (vt_run ts v) /\
+    vt_ok (vt_run ts v) /\ SInv t' (vt_run ts v).
+Proof.
+  intros is_set t v p Hok (S1 & S2 & S3 & S4 & S5) Hp.
+  set (colon := cap_colon (x_caps (t_drv t))) in *. set (rgb8 := cap_rgb8 (x_caps (t_drv t))) in *.
+  assert (Hinv : PenInv 256 colon rgb8 (t_pen t) (t_pen t) v).
+  { split; [exact S4|]. split; [|exact S5]. intros a. symmetry. apply cache_of_256. exact S4. }
+  destruct (op_ok 256 colon rgb8 is_set (t_pen t) (t_pen t) v p ltac:(lia) Hinv Hp)
+    as (tp' & ts & Hdo & Hinv' & Hset & _).
+  exists (term_with_pen t tp'), ts.
+  destruct Hinv' as (L1 & L2 & L3).
+  assert (Hr' : pen_in_range tp').
+  { intros a x E. rewrite L2, cache_of_256 in E by exact L1. exact (L1 a x E). }
+  assert (Hl : v_lines (vt_run ts v) = v_lines v) by (rewrite Hset; reflexivity).
+  assert (Hc : v_cols (vt_run ts v) = v_cols v) by (rewrite Hset; reflexivity).
+  assert (Hmg : v_mg (vt_run ts v) = v_mg v) by (rewrite Hset; reflexivity).
+  assert (Hmd : v_md (vt_run ts v) = v_md v) by (rewrite Hset; reflexivity).
+  assert (Hcur : v_cur (vt_run ts v) = v_cur v) by (rewrite Hset; reflexivity).
+  assert (Hg : forall y x, v_grid (vt_run ts v) y x = v_grid v y x) by (intros y x; rewrite Hset; reflexivity).
+  destruct (vt_ok_inv v Hok) as (HL & HC & _ & _ & _ & _ & Hawm & Hrow & Hcol).
+  split.
+  { destruct is_set; cbn [drv_req]; fold colon rgb8; unfold xterm_colors; rewrite Hdo; reflexivity. }
+  split.
+  { unfold effect_ok.
+    assert (Hgoal : frame_okb v (vt_run ts v) = true /\
+                    cursor_eqb (v_cur (vt_run ts v)) (v_cur v) = true /\ True /\
+                    forall y x, 0 <= y < v_lines v -> 0 <= x < v_cols v ->
+                                cell_eqb (v_grid (vt_run ts v) y x) (v_grid v y x) = true).
+    { split.
+      - unfold frame_okb. rewrite Hl, Hc, Hmg, Hmd, (full_margins_of_ok v Hok), margins_eqb_refl, modes_eqb_refl. lia.
+      - split; [rewrite Hcur; apply cursor_eqb_refl|].
+        split; [exact I|]. intros y x _ _. rewrite Hg. apply cell_eqb_refl. }
+    destruct is_set; exact Hgoal. }
+  split.
+  { apply vt_ok_intro; rewrite ?Hl, ?Hc, ?Hmg, ?Hmd; unfold row, col; rewrite ?Hcur; try assumption.
+    apply (full_margins_of_ok v Hok). }
+  unfold SInv, term_with_pen. cbn [t_lines t_cols t_drv t_pen]. fold colon rgb8.
+  rewrite Hl, Hc, Hmd. exact (conj S1 (conj S2 (conj S3 (conj Hr' L3)))).
+Qed.
+
+(* one request *)
+Lemma req_ok : forall t v q, vt_ok v -> SInv t v -> req_pen_ok q ->
+  in_range q v -> rv_edge_excl t v q = false ->
+  exists t' ret ts,
+    drv_req t q = Some (t', ret, ts) /\
+    effect_ok q ret (match ts with [] => true | _ => false end) v (vt_run ts v) /\
+    vt_ok (vt_run ts v) /\ SInv t' (vt_run ts v).
+Proof.
+  intros t v q Hok Hs Hpen Hr Hex.
+  destruct q as [l c|d r|bs|n me| |r d rt|p|p].
+  - destruct (goto_ok v l c Hok Hr) as [He Hok'].
+    exists t, true, (xt_goto_abs l c). split; [reflexivity|]. split; [exact He|]. split; [exact Hok'|].
+    eapply SInv_frame; eauto; try exact I.
+  - destruct (move_ok v d r Hok Hr) as [He Hok'].
+    exists t, true, (xt_move_rel d r). split; [reflexivity|]. split; [exact He|]. split; [exact Hok'|].
+    eapply SInv_frame; eauto; try exact I.
+  - destruct (print_ok v bs Hok Hr) as [He Hok'].
+    exists t, true, (xt_print bs). split; [reflexivity|]. split; [exact He|]. split; [exact Hok'|].
+    eapply SInv_frame; eauto; try exact I.
+  - assert (Hrv : get_bool_attr (t_pen t) AReverse = a_reverse (v_sgr v)).
+    { destruct Hs as (_ & _ & _ & S4 & (S5 & _)). specialize (S5 AReverse). cbn [vt_attr] in S5.
+      unfold get_bool_attr. destruct (t_pen t AReverse) as [x|] eqn:E.
+      - specialize (S4 AReverse x E). unfold aval_in_range in S4. cbn [attr_type] in S4.
+        destruct x as [b|k|i sec]; try contradiction. cbn [enc] in S5. congruence.
+      - cbn in S5. congruence. }
+    cbn [rv_edge_excl] in Hex.
+    destruct (erase_ok v _ n me Hok Hr Hrv Hex) as [He Hok'].
+    exists t, true, (xt_erasech (get_bool_attr (t_pen t) AReverse) n me).
+    split; [reflexivity|]. split; [exact He|]. split; [exact Hok'|].
+    eapply SInv_frame; eauto; try exact I.
+  - destruct (clear_ok v Hok) as [He Hok'].
+    exists t, true, xt_clear. split; [reflexivity|]. split; [exact He|]. split; [exact Hok'|].
+    eapply SInv_frame; eauto; try exact I.
+  - destruct Hs as (S1 & S2 & S3 & S4 & S5).
+    destruct (scroll_ok v (cap_slrm (x_caps (t_drv t))) r d rt Hok Hr S3) as [He Hok'].
+    cbn [drv_req]. rewrite S2.
+    destruct (xt_scrollrect (cap_slrm (x_caps (t_drv t))) (v_cols v) r d rt) as [ret ts] eqn:Ex.
+    cbn [fst snd] in He, Hok'.
+    exists t, ret, ts. split; [reflexivity|]. split; [exact He|]. split; [exact Hok'|].
+    destruct ret.
+    + eapply SInv_frame; [exact (conj S1 (conj S2 (conj S3 (conj S4 S5)))) | exact Hok | exact He | reflexivity].
+    + pose proof (scrollrect_fail_silent _ _ _ _ _ _ Ex) as Hts. subst ts. rewrite vt_run_nil.
+      exact (conj S1 (conj S2 (conj S3 (conj S4 S5)))).
+  - destruct (pen_req_ok false t v p Hok Hs Hpen) as (t' & ts & H1 & H2 & H3 & H4).
+    exists t', true, ts. exact (conj H1 (conj H2 (conj H3 H4))).
+  - destruct (pen_req_ok true t v p Hok Hs Hpen) as (t' & ts & H1 & H2 & H3 & H4).
+    exists t', true, ts. exact (conj H1 (conj H2 (conj H3 H4))).
+Qed.
+
+(* any sequence of requests, each in range in the state it is issued in (and outside the
+   recorded trigger class), has its direct effect on the screen *)
+Lemma sequence_partial : forall qs t v, vt_ok v -> SInv t v -> Forall req_pen_ok qs ->
+  seq_ok_excl rv_edge_excl t v qs.
+Proof.
+  induction qs as [|q qs IH]; intros t v Hok Hs Hpens; [exact I|].
+  cbn [seq_ok_excl]. intros Hr Hex.
+  inversion Hpens as [|q' qs' Hq Hqs]; subst.
+  destruct (req_ok t v q Hok Hs Hq Hr Hex) as (t' & ret & ts & H1 & H2 & H3 & H4).
+  exists t', ret, ts. split; [exact H1|]. split; [exact H2|]. split; [exact H3|].
+  apply IH; assumption.
+Qed.
+
+(* without the exclusion the statement is false: the witness of the recorded finding *)
+Definition rv_edge_term : term :=
+  mkTerm xdrv_new true (pset empty_pen AReverse (Some (VBool true))) 2 5.
+Lemma sequence_refuted :
+  vt_ok rv_edge_witness /\ SInv rv_edge_term rv_edge_witness /\
+  ~ seq_ok rv_edge_term rv_edge_witness [RErase 3 MNo].
+Proof.
+  split; [vm_compute; reflexivity|]. split.
+  - unfold SInv. split; [reflexivity|]. split; [reflexivity|]. split; [discriminate|]. split.
+    + intros a x E. destruct a; cbn in E; try discriminate. inversion E. exact I.
+    + split; [|reflexivity]. intros a. destruct a; reflexivity.
+  - cbn [seq_ok]. intros H.
+    destruct (H ltac:(vm_compute; reflexivity)) as (t' & ret & ts & Hd & He & _).
+    cbn in Hd. inversion Hd; subst. clear Hd.
+    destruct He as (_ & H2 & _). vm_compute in H2. discriminate.
+Qed.
+
+(* the state after start(): DECLRMM on, default rendition, no margins, cursor at the origin *)
+Lemma start_state_ok : forall lines cols d, 0 < lines -> 0 < cols ->
+  vt_ok (vt_run xt_start (vt_init lines cols)) /\
+  SInv (mkTerm d true empty_pen lines cols) (vt_run xt_start (vt_init lines cols)).
+Proof.
+  intros lines cols d HL HC.
+  set (v := vt_run xt_start (vt_init lines cols)).
+  assert (E1 : v_lines v = lines) by reflexivity.
+  assert (E2 : v_cols v = cols) by reflexivity.
+  assert (E3 : v_mg v = full_margins lines cols) by reflexivity.
+  assert (E4 : v_md v = md_set_lrmm default_modes true) by reflexivity.
+  assert (E5 : v_sgr v = default_attrs) by reflexivity.
+  assert (E6 : row v = 0) by reflexivity.
+  assert (E7 : col v = clamp 0 (cols - 1) (1 - 1)) by reflexivity.
+  assert (E7' : col v = 0) by (rewrite E7; unfold clamp; lia).
+  clearbody v. split.
+  - apply vt_ok_intro; rewrite ?E1, ?E2, ?E3, ?E4, ?E6, ?E7'; try reflexivity; lia.
+  - unfold SInv. cbn [t_lines t_cols t_drv t_pen]. rewrite E1, E2, E4, E5.
+    split; [reflexivity|]. split; [reflexivity|]. split; [reflexivity|].
+    split; [intros a x E; discriminate|]. split; [intros a; destruct a; reflexivity | reflexivity].
+Qed.
